@@ -13,7 +13,8 @@ from hypothesis import strategies as st
 from hypothesis.stateful import (RuleBasedStateMachine, rule, precondition,
                                  initialize)
 
-from ..runner import Task, Violation, HarnessError, run_machine, VERIF
+from ..runner import (run_hypothesis, Task, Violation, HarnessError,
+                      run_machine, VERIF)
 from .. import sandbox
 from .. import graph
 
@@ -491,6 +492,8 @@ def _run(rec, seed, budget, shard, nshards, backend, compiler='gccw'):
 
 def replay(task, case, rec):
     """Re-run a recorded history without Hypothesis."""
+    if 'pad' in case or 'deps' in case:
+        return _replay_depfixer(case, rec)
     M = _machine(case['backend'], case.get('compiler', 'gccw'))
     M._vf_holder = {'last': None}
     M._vf_rec = rec
@@ -618,6 +621,104 @@ def _run_scale(rec, seed, budget, shard, nshards, sizes):
                      case)
 
 
+# --------------------------------------------------------------------------
+# the depfile post-processor on compiler-style depfiles of any size
+
+def _gcc_escape(name):
+    return name.replace('$', '$$').replace('#', '\\#').replace(' ', '\\ ')
+
+
+def depfile_text(target, deps, width):
+    """Lay a rule out the way compilers do: continuation lines."""
+    out = _gcc_escape(target) + ':'
+    col = len(out)
+    for d in deps:
+        e = _gcc_escape(d)
+        if col + 1 + len(e) > width:
+            out += ' \\\n'
+            col = 0
+        out += ' ' + e
+        col += 1 + len(e)
+    return out + '\n'
+
+
+def check_depfixer(rec, target, deps, width, case):
+    import io
+    from bfg9000 import depfixer
+    text = depfile_text(target, deps, width)
+    buf = io.StringIO()
+    try:
+        depfixer.emit_deps(io.StringIO(text), buf)
+    except Exception as e:
+        rec.fail('depfixer/rejected', 'the depfile post-processor rejected a '
+                 'compiler-style depfile of {} bytes ({} prerequisites, lines '
+                 'of <= {} columns): {}: {}'.format(
+                     len(text), len(deps), width, type(e).__name__, e), case)
+        return
+    want = ''.join(_gcc_escape(d) + ':\n' for d in deps)
+    if buf.getvalue() != want:
+        got = buf.getvalue().split('\n')
+        exp = want.split('\n')
+        k = next((i for i, (a, b) in enumerate(zip(got, exp)) if a != b),
+                 min(len(got), len(exp)))
+        rec.fail('depfixer/wrong-rules', 'depfile of {} bytes: rule #{} is '
+                 '{!r}, expected {!r}'.format(
+                     len(text), k, got[k] if k < len(got) else None,
+                     exp[k] if k < len(exp) else None), case)
+
+
+def _run_depfixer(rec, seed, budget, shard, nshards, sweep):
+    names = DEPNAMES
+    if sweep:
+        # every alignment of the text relative to any block size: one leading
+        # name grows by a byte per case
+        n = 0
+        for pad in range(0, 4200 if sweep == 'full' else 300):
+            if pad % nshards != shard:
+                continue
+            deps = sweep_deps(pad)
+            case = {'pad': pad, 'width': 78}
+            rec.case({'sweep'}, nontrivial=['pad', pad], sample=case)
+            check_depfixer(rec, 'obj/my obj.o', deps, 78, case)
+        return
+    from hypothesis import strategies as hst
+    strat = hst.fixed_dictionaries({
+        'deps': hst.lists(hst.one_of(
+            hst.sampled_from(names),
+            hst.text(alphabet='abcXYZ019_-+./ #$', min_size=1, max_size=60)
+            .filter(lambda t: t.strip() == t and t)), min_size=0,
+            max_size=200),
+        'width': hst.sampled_from([20, 78, 78, 200, 100000])})
+
+    def prop(case):
+        deps = [d for d in case['deps'] if d.strip()]
+        rec.case({'deps<10' if len(deps) < 10 else 'deps>=10'},
+                 nontrivial=([len(deps), case['width']]
+                             if len(deps) >= 10 else None), sample=case)
+        check_depfixer(rec, 'prog.int/main.o', deps, case['width'], case)
+    run_hypothesis(rec, strat, prop, budget, seed)
+
+
+DEPNAMES = ['/usr/include/stdio.h', 'inc/my hdr.h', 'h#2.h', 'h$3.h',
+            '../src/a/very/long/path/component/' + 'x' * 40 + '.h', 'a.h',
+            '/opt/x y/z#1/$v.h']
+
+
+def sweep_deps(pad):
+    return ['p' * (pad % 211 + 1) + '.h'] * (pad // 211 + 1) + \
+        [DEPNAMES[i % len(DEPNAMES)] for i in range(420)]
+
+
+def _replay_depfixer(case, rec):
+    if 'pad' in case:
+        check_depfixer(rec, 'obj/my obj.o', sweep_deps(case['pad']),
+                       case['width'], case)
+    else:
+        check_depfixer(rec, 'prog.int/main.o',
+                       [d for d in case['deps'] if d.strip()], case['width'],
+                       case)
+
+
 def tasks(tier):
     try:
         seed = int(os.environ.get('VERIF_SEED') or '1')
@@ -626,6 +727,10 @@ def tasks(tier):
     sizes = SCALE_SIZES if tier != 'quick' else \
         sorted({51, [33, 65, 101, 129][seed % 4]})
     return [Task('scale', _run_scale, quick=1, thorough=1, sizes=sizes),
+            Task('depfixer', _run_depfixer, quick=16 * 100,
+                 thorough=16 * 5000, sweep=None),
+            Task('depfixer-sweep', _run_depfixer, quick=1, thorough=1,
+                 sweep='short' if tier == 'quick' else 'full'),
             Task('inc-make', _run, quick=16 * 3, thorough=16 * 60,
                  backend='make'),
             Task('inc-make-clang', _run, quick=16 * 2, thorough=16 * 40,
